@@ -13,7 +13,7 @@
   needed), every interpretation `FOps` of float64 (so NaN from an all-zero counter set, the rounding of
   `value + 0.5`, the order of the rounding errors do not matter) and every table set of the right shape (`wfRSS`).
 -/
-import Gzx.Proofs.RSS14Total4
+import Gzx.Proofs.RSS14History
 namespace Gzx.Properties.C06RSS
 open Gzx Gzx.Det Gzx.RSS14 Gzx.Proofs.RSS14Total
 
@@ -62,6 +62,28 @@ theorem rss14_constructResult_total (l r : Pair) : ∃ res, constructResult l r 
 /-- `Reset` forgets the history: what follows does not depend on what came before -/
 theorem rss14_reset_forgets {F : Type} (o : FOps F) (T : Tables) (st st' : State) (ops : List Op) :
     run o T st (.reset :: ops) = run o T st' (.reset :: ops) := rfl
+
+/-- **History: three sightings.**  A reader with an empty history (fresh, or after `Reset`) answers NotFoundException
+    to its first TWO `DecodeRow` calls whatever the rows are — a pair is reported only when it has been tallied three
+    times (`count > 1`, the count starting at 0).  (That the third call can succeed is what suite `rowsrest-rss-seq`
+    observes on synthetic symbols.) -/
+theorem rss14_fresh_reader_two_rows_not_found {F : Type} (o : FOps F) (T : Tables) (wf : wfRSS T = true)
+    (rn1 rn2 : Int) (row1 row2 : List Bool) (cb1 cb2 : Bool) :
+    (decodeRow o T State.empty rn1 row1 cb1).2.2 = .error .notFound ∧
+    (decodeRow o T (decodeRow o T State.empty rn1 row1 cb1).1 rn2 row2 cb2).2.2 = .error .notFound := by
+  have hw := wfRSS_iff wf
+  refine ⟨(decodeRow_notFound_of_counts o T hw State.empty rn1 row1 cb1 (fun p hp => by simp [State.empty] at hp)).1, ?_⟩
+  exact (decodeRow_notFound_of_counts o T hw _ rn2 row2 cb2 (decodeRow_empty_counts o T hw rn1 row1 cb1)).1
+
+/-- the same inside any call sequence: the two calls after a `Reset` are NotFound -/
+theorem rss14_after_reset_two_rows_not_found {F : Type} (o : FOps F) (T : Tables) (wf : wfRSS T = true) (st : State)
+    (rn1 rn2 : Int) (row1 row2 : List Bool) (cb1 cb2 : Bool) (ops : List Op) :
+    ∃ t1 t2 rest, (run o T st (.reset :: .row rn1 row1 cb1 :: .row rn2 row2 cb2 :: ops)).1 =
+      (t1, .error .notFound) :: (t2, .error .notFound) :: rest := by
+  have h := rss14_fresh_reader_two_rows_not_found o T wf rn1 rn2 row1 row2 cb1 cb2
+  simp only [run]
+  rw [h.1, h.2]
+  exact ⟨_, _, _, rfl⟩
 
 /-! ### non-vacuity -/
 
